@@ -290,6 +290,41 @@ func scenC04(r *Run) {
 		}
 		r.S.Probe("c04_relative_location")
 	}
+	// port phase: a Location that names no port means the default port of its scheme, whatever
+	// port the redirecting URL was fetched from
+	if t.Chance(1, 4) {
+		i := 800 + t.Draw(50)
+		from := fmt.Sprintf("/portredir/%d", i)
+		loc := []string{"https://h1.example/portless", "//h1.example/portless", "https://H1.example/portless", "https://h1.example:443/portless"}[t.Draw(4)]
+		h1p := w.Hosts["h1.example"]
+		prevH := h1p.Handler
+		h1p.Handler = func(target string, cr *ConnRec) *Response {
+			if target == from && cr.Port == "8443" {
+				return Redirect([]int{301, 302, 307}[i%3], loc)
+			}
+			return prevH(target, cr)
+		}
+		before := len(w.Conns)
+		tk := r.Spawn("portredir", func() {
+			jtp.Get(mustURL("https://h1.example:8443"+from), AcceptAP, []string{"application/activity+json", "application/ld+json", "application/json"}, 20)
+		})
+		r.Drive(func() bool { return tk.Done }, hugeHorizon, 20000)
+		okSeen := false
+		var all []string
+		for _, cr := range w.Conns[before:] {
+			all = append(all, strings.ToLower(cr.Host)+":"+cr.Port+cr.Target)
+			if strings.EqualFold(cr.Host, "h1.example") && cr.Port == "443" && cr.Target == "/portless" && cr.ReqDone {
+				okSeen = true
+			}
+			if cr.Target == "/portless" && cr.Port != "443" {
+				r.Violate("C04", "target", "redirect-hop-sent-to-the-redirecting-urls-port", fmt.Sprintf("https://h1.example:8443%s answered with Location %q; the next request went to port %s; requests seen: %v", from, loc, cr.Port, all))
+			}
+		}
+		if !okSeen && len(r.S.Violations()) == 0 {
+			r.Violate("C04", "target", "relative-location-not-resolved", fmt.Sprintf("https://h1.example:8443%s answered with Location %q; no request for /portless reached h1.example:443; requests seen: %v", from, loc, all))
+		}
+		r.S.Probe("c04_portless_location_from_a_url_with_a_port")
+	}
 	// history phase: a permanent redirect from one host to the same path on another says something
 	// about that one URL. What is fetched afterwards from the first host, under other paths, the
 	// same path with another query, or the same URL again, still goes to the host its URL names.
